@@ -262,7 +262,7 @@ def run(ctx: Ctx) -> int:
     n = len(tlc_in)
     if len({i for i, _ in rej if i >= n}) != len(cans):
         from ..tlc import MachineryError
-        raise MachineryError("Trace_C12 accepted a canary")
+        ctx.defer_machinery("Trace_C12 accepted a canary")
     ctx.extra["canaries_rejected"] = len(cans)
     for i, clause in rej:
         if i < n:
